@@ -488,6 +488,18 @@ func verifDir() string {
 	return "/verif"
 }
 
+// outDir is where evidence and replay files go: /verif, unless VERIF_OUT
+// redirects them (used when the checks are run against a seeded change, so
+// that the committed evidence keeps describing /repo itself).
+func outDir() string {
+	if d := os.Getenv("VERIF_OUT"); d != "" {
+		os.MkdirAll(filepath.Join(d, "evidence"), 0o755)
+		os.MkdirAll(filepath.Join(d, "replays"), 0o755)
+		return d
+	}
+	return verifDir()
+}
+
 // Main is the entry point of the p9sim binary.
 func Main() {
 	var (
@@ -765,7 +777,7 @@ func parentMain(e *Engine, tier string, seed uint64, workers, runsOverride, secs
 	wall := time.Since(start).Seconds()
 	violations := 0
 	exit := 0
-	replayDir := filepath.Join(verifDir(), "replays")
+	replayDir := filepath.Join(outDir(), "replays")
 
 	// known findings seen
 	var knownKeys []string
@@ -969,8 +981,8 @@ func parentMain(e *Engine, tier string, seed uint64, workers, runsOverride, secs
 	if ev.Level == "" {
 		ev.Level = "exploration"
 	}
-	evPath := filepath.Join(verifDir(), "evidence", e.ID+".json")
-	racePath := filepath.Join(verifDir(), "evidence", e.ID+".race.json")
+	evPath := filepath.Join(outDir(), "evidence", e.ID+".json")
+	racePath := filepath.Join(outDir(), "evidence", e.ID+".race.json")
 	if simrt.RaceBuild {
 		evPath = racePath
 	} else if b, err := os.ReadFile(racePath); err == nil {
